@@ -234,6 +234,16 @@ def run_case(case, seed):
         if len(v) < 6:
             v.append(viol(fp, msg, d=D, term=term))
 
+    # integer / unsigned / boolean images are legal operands too; their Levi-Civita contraction must be right and must
+    # not disturb later contractions in the same process (the symbol is a module-level cached table)
+    for dt in (np.uint8, np.int32, np.bool_):
+        raw = (_leaf_data(D, sp, D - 1, 0, 0) % 2).astype(dt)
+        img = geom.GeometricImage(jnp.asarray(raw), 0, D, True)
+        got = np.asarray(img.levi_civita_contract(tuple(range(D - 1)) if D > 2 else 0).data).astype(np.float64)
+        ref = np.asarray(geom.GeometricImage(jnp.asarray(raw.astype(np.float32)), 0, D, True).levi_civita_contract(tuple(range(D - 1)) if D > 2 else 0).data).astype(np.float64)
+        evals += 1
+        if got.shape != ref.shape or not np.array_equal(got, ref):
+            bad(f"C05/dtype/levi-civita/{np.dtype(dt).name}", f"levi_civita_contract of a {np.dtype(dt).name} image differs from the same values as float32")
     if case.get("identities"):
         env = _make_env(D, sp, (True,) * D, None, geom, jnp)
         K = KMAX[D]
